@@ -1456,6 +1456,36 @@ fn c06_jobs(r: &mut Rng, w: &World, thorough: bool) -> Vec<VJob> {
                 jobs.push(j);
             }
         }
+        // every pair of the four issuer tags, with values true of the credential: in one filter, under $and / $or, and on two
+        // different referents (the legacy form refuses `issuer_id` with `issuer_did` and `schema_issuer_id` with `schema_issuer_did`: the recorded finding)
+        {
+            let spec = ReqSpec::new(NONCE).attr("a_name", "name").attr("a_h", "height").pred("p_age", "age", ">=", 18);
+            // credential 0: schema and definition by the same legacy DID; credential 1: the definition by a did:web issuer
+            for (picks, cd_issuer) in [
+                (vec![pick(0, &[("a_name", true), ("a_h", true)], &["p_age"], None)], "NcYxiDXkpYi6ov5FcYDi1e"),
+                (vec![pick(1, &[("a_name", true), ("a_h", true)], &["p_age"], None)], "did:web:issuer1.example"),
+            ] {
+                let tags = [("schema_issuer_id", "NcYxiDXkpYi6ov5FcYDi1e"), ("schema_issuer_did", "NcYxiDXkpYi6ov5FcYDi1e"), ("issuer_id", cd_issuer), ("issuer_did", cd_issuer)];
+                for (i, (t1, v1)) in tags.iter().enumerate() {
+                    for (t2, v2) in tags.iter().skip(i + 1) {
+                        let (f1, f2) = (json!({*t1: v1}), json!({*t2: v2}));
+                        let forms = [json!({*t1: v1, *t2: v2}), json!({"$and": [f1.clone(), f2.clone()]}), json!({"$or": [f1.clone(), f2.clone()]}), json!([f1.clone(), f2.clone()]), json!({"$not": {"$or": [f1.clone(), {"$not": f2.clone()}]}})];
+                        for q in forms {
+                            for rf in ["a_name", "p_age"] {
+                                let verify = spec.clone().restr(rf, q.clone());
+                                let mut j = job("restriction:issuer-tag-pairs", fmt, &spec, &verify, picks.clone(), w);
+                                j.base = Base::StripRestrictions;
+                                jobs.push(j);
+                            }
+                        }
+                        let verify = spec.clone().restr("a_name", f1.clone()).restr("p_age", f2.clone());
+                        let mut j = job("restriction:issuer-tag-pairs:two-referents", fmt, &spec, &verify, picks.clone(), w);
+                        j.base = Base::StripRestrictions;
+                        jobs.push(j);
+                    }
+                }
+            }
+        }
         // two credentials from different issuers prove the SAME predicate (and reveal the same attribute); a restriction or
         // interval on one referent is met by the later credential only: the search must move on to it
         {
